@@ -1,6 +1,6 @@
 SPECIFICATION Spec
 CONSTANTS
-  FixChipType = FALSE
-  FixLfoTable = FALSE
+  FixChipType = TRUE
+  FixLfoTable = TRUE
   FixTables = FALSE
 CHECK_DEADLOCK FALSE
